@@ -123,6 +123,8 @@ class Fn:
         self.prefix = prefix or pyfn.__name__
         self._fresh = 0
         self.floors = []
+        self.yields = []
+        self.loop_positions = []
 
     # ------------------------------------------------------------------------------------------
     def fresh_int(self, tag):
@@ -237,6 +239,12 @@ class Fn:
         for s in stmts:
             if (pc is False) or (is_z3(pc) and z3.is_false(z3.simplify(pc))):
                 return z3.BoolVal(False)     # unreachable remainder of the block
+            if isinstance(s, ast.Expr) and isinstance(s.value, ast.Yield):
+                self.yields.append((pc, self.expr(s.value.value, st) if s.value.value is not None else None))
+                continue
+            if isinstance(s, ast.For):
+                self.for_enumerate(s, st, pc, rets)
+                continue
             if isinstance(s, ast.Expr):
                 if isinstance(s.value, ast.Constant):
                     continue
@@ -322,6 +330,37 @@ class Fn:
             raise Unsupported(type(s).__name__ + ': ' + ast.unparse(s)[:80])
         return pc
 
+    def for_enumerate(self, s, st, pc, rets):
+        """`for pos, item in enumerate(<sequence>, start=k): body` where the body carries no state from one iteration to the next:
+        the body is translated ONCE for an arbitrary position pos >= k (fresh Int); `yield`s inside are recorded with their
+        condition.  The position variables are listed in self.loop_positions so that obligations can quantify over them."""
+        it = s.iter
+        if not (isinstance(it, ast.Call) and isinstance(it.func, ast.Name) and it.func.id == 'enumerate' and
+                isinstance(s.target, ast.Tuple) and len(s.target.elts) == 2 and all(isinstance(e, ast.Name) for e in s.target.elts)):
+            raise Unsupported('for loop shape: ' + ast.unparse(s)[:60])
+        if s.orelse:
+            raise Unsupported('for/else')
+        start = 0
+        if len(it.args) == 2:
+            start = self.expr(it.args[1], st)
+        for k in it.keywords:
+            if k.arg == 'start':
+                start = self.expr(k.value, st)
+        assigned = {n.id for n in ast.walk(ast.Module(s.body, [])) if isinstance(n, ast.Name) and isinstance(n.ctx, ast.Store)}
+        if assigned & set(st):
+            raise Unsupported('loop-carried state: %s' % sorted(assigned & set(st)))
+        for n in ast.walk(ast.Module(s.body, [])):
+            if isinstance(n, (ast.Return, ast.Break, ast.Continue)):
+                raise Unsupported('return/break/continue inside a loop')
+        pos = self.fresh_int('pos')
+        self.side.append(pos >= start)
+        self.loop_positions.append(pos)
+        st2 = dict(st)
+        st2[s.target.elts[0].id] = pos
+        st2[s.target.elts[1].id] = Obj('item@' + s.target.elts[1].id)
+        self.notes.append('for-enumerate body translated once for an arbitrary position (no loop-carried state)')
+        self.block(s.body, st2, pc, rets)
+
     def merge(self, st, c, st1, st2, f1, f2):
         dead1 = z3.is_false(z3.simplify(f1)) if is_z3(f1) else not f1
         dead2 = z3.is_false(z3.simplify(f2)) if is_z3(f2) else not f2
@@ -379,8 +418,38 @@ class Fn:
             raise Unsupported('use of unmergeable variable ' + v.name)
         raise Unsupported('truth value of %r' % (v,))
 
+    def trunc(self, x):
+        """truncation toward zero of a Real term -> Int term"""
+        if isinstance(x, int):
+            return x
+        if x.sort() == z3.IntSort():
+            return x
+        return z3.If(x >= 0, self.floor(x), -self.floor(-x))
+
+    def typed_divmod(self, op, a, b, pa, pb):
+        """// and % when a declared carrier type is Decimal or float (documented semantics of the decimal module: the integer
+        quotient truncates toward zero and the remainder takes the sign of the dividend; float: floor semantics of the exact
+        quotient — IEEE rounding is outside the claim).  The divisor must be a numeral so that the quotient stays linear."""
+        if not (isinstance(b, int) or z3.is_rational_value(b) or z3.is_int_value(b)):
+            raise Unsupported('non-constant divisor in Decimal/float division')
+        ar = z3.ToReal(a) if is_z3(a) and a.sort() == z3.IntSort() else (z3.RealVal(a) if isinstance(a, int) else a)
+        br = z3.RealVal(b) if isinstance(b, int) else (z3.ToReal(b) if b.sort() == z3.IntSort() else b)
+        quo = ar / br
+        if decimal.Decimal in (pa, pb) and float not in (pa, pb):
+            q = self.trunc(quo)
+            self.notes.append('Decimal // and %: quotient truncated toward zero, remainder has the sign of the dividend')
+        else:
+            q = self.floor(quo)
+            self.notes.append('float // and %: floor of the exact quotient (IEEE rounding outside the claim)')
+        if isinstance(op, ast.FloorDiv):
+            return q
+        return ar - br * z3.ToReal(q)
+
     def binop(self, op, a, b):
+        pa, pb = getattr(a, 'pytype', None), getattr(b, 'pytype', None)
         a, b = unwrap(a), unwrap(b)
+        if isinstance(op, (ast.FloorDiv, ast.Mod)) and (pa in (decimal.Decimal, float) or pb in (decimal.Decimal, float)):
+            return self.typed_divmod(op, a, b, pa, pb)
         if isinstance(a, (decimal.Decimal, int)) and isinstance(b, (decimal.Decimal, int)) and \
                 (isinstance(a, decimal.Decimal) or isinstance(b, decimal.Decimal)) and isinstance(op, (ast.Div, ast.Mult)):
             return decimal.Decimal(a) / decimal.Decimal(b) if isinstance(op, ast.Div) else decimal.Decimal(a) * decimal.Decimal(b)
@@ -582,6 +651,18 @@ class Fn:
             return f(*args)      # pure method of an immutable constant on constant arguments: evaluated concretely
         if f is type and len(args) == 1:
             return TypeOf(args[0])
+        if f is math.isfinite:
+            self.notes.append('math.isfinite(...) = True (finite operands assumed)')
+            return True
+        if f is math.fmod:
+            a, b = args
+            ar, br = unwrap(a), unwrap(b)
+            if not (isinstance(br, int) or z3.is_rational_value(br) or z3.is_int_value(br)):
+                raise Unsupported('non-constant divisor in fmod')
+            ar = z3.ToReal(ar) if is_z3(ar) and ar.sort() == z3.IntSort() else (z3.RealVal(ar) if isinstance(ar, int) else ar)
+            br = z3.RealVal(br) if isinstance(br, int) else (z3.ToReal(br) if br.sort() == z3.IntSort() else br)
+            self.notes.append('math.fmod(a, b) = a - b * trunc(a / b)')
+            return ar - br * z3.ToReal(self.trunc(ar / br))
         if f in (math.isnan, math.isinf):
             self.notes.append('math.%s(...) = False (finite operands assumed)' % f.__name__)
             return False
@@ -598,7 +679,8 @@ class Fn:
             v = unwrap(args[0])
             if isinstance(v, int) or (is_z3(v) and v.sort() == z3.IntSort()):
                 return v
-            raise Unsupported('int() of a non-integer term')
+            self.notes.append('int(x) = truncation toward zero')
+            return self.trunc(v)
         if f is round and (len(args) == 1 or (len(args) == 2 and isinstance(args[1], int))):
             x = unwrap(args[0])
             k = args[1] if len(args) == 2 else 0
@@ -741,7 +823,7 @@ def translate(pyfn, args, stubs=None, env=None, kwargs=None, procedure=False):
     fn.nonneg, fn.side_oob, fn.callee_raises = [], [], []
     rets = fn(*args, **(kwargs or {}))
     val, raised, labels = fn.value(rets, allow_none=procedure)
-    return dict(val=val, raised=raised, labels=labels, side=fn.side, nonneg=fn.nonneg, oob=fn.side_oob, notes=fn.notes,
+    return dict(yields=fn.yields, loop_positions=fn.loop_positions, val=val, raised=raised, labels=labels, side=fn.side, nonneg=fn.nonneg, oob=fn.side_oob, notes=fn.notes,
                 callee_raises=fn.callee_raises, rets=rets, fn=fn)
 
 
